@@ -703,7 +703,8 @@ func (b *backend) Put(w http.ResponseWriter, r *http.Request) error {
 		w.Header().Set("Last-Modified", co.ModTime.UTC().Format(http.TimeFormat))
 	}
 	if co.Path != "" {
-		w.Header().Set("Location", co.Path)
+		// The header carries a URI reference, like an href element
+		w.Header().Set("Location", (&url.URL{Path: co.Path}).String())
 	}
 
 	// TODO: http.StatusNoContent if the resource already existed
